@@ -253,7 +253,7 @@ func (r *Result) Human() map[string]interface{} {
 	}
 	return map[string]interface{}{
 		"router": c.Router, "route": "GET /w/x, handler calls resp.WriteEntity(value)", "produces": c.Produces,
-		"registered_writers": Registry, "DefaultResponseContentType": c.Default,
+		"registered_writers": Registry, "DefaultResponseContentType": c.Default, "handler_calls_PrettyPrint(false)": c.Compact,
 		"accept": acc, "accept_second_spelling": c.Variant(), "dispatches_each": Dispatches,
 		"real": obsString(r.Real), "real_second_spelling": obsString(r.RealV),
 		"model": modelString(r.Model), "model_second_spelling": modelString(r.ModelV), "demanded_by_spec": r.Best,
